@@ -21,6 +21,8 @@ structure Rec where
   seqno : Nat
   ks : KsId
   op : LOp
+  /-- ghost flag: the record came from a bulk ingestion, not from the journal -/
+  ing : Bool := false
   deriving Repr, DecidableEq
 
 def applyOp (m : KMap) : LOp → KMap
@@ -45,8 +47,10 @@ structure KsL where
   persisted : Option Nat := none
   deriving Repr, DecidableEq
 
-def maxSeqno (rs : List Rec) : Option Nat :=
-  rs.foldl (fun acc r => some (match acc with | none => r.seqno | some a => max a r.seqno)) none
+def maxStep (acc : Option Nat) (r : Rec) : Option Nat :=
+  some (match acc with | none => r.seqno | some a => max a r.seqno)
+
+def maxSeqno (rs : List Rec) : Option Nat := rs.foldl maxStep none
 
 def optMax : Option Nat → Option Nat → Option Nat
   | none, b => b
@@ -96,7 +100,7 @@ def replayRec (kss : List KsL) (r : Rec) : List KsL := kss.map (stepKs r)
     (`clear` also draws a seqno for the new empty version and drops tables and memtables) -/
 def DbL.write (db : DbL) (items : List (KsId × LOp)) : DbL :=
   let s := db.seqno
-  let recs := items.map fun (ks, op) => (⟨s, ks, op⟩ : Rec)
+  let recs := items.map fun (ks, op) => (⟨s, ks, op, false⟩ : Rec)
   { db with active := { db.active with recs := db.active.recs ++ recs },
             kss := recs.foldl replayRec db.kss,
             seqno := s + (if items.any (fun p => p.2 = .clear) then 2 else 1) }
@@ -104,8 +108,11 @@ def DbL.write (db : DbL) (items : List (KsId × LOp)) : DbL :=
 def sealMem (k : KsL) : KsL :=
   if k.mem.isEmpty then k else { k with sealedMem := k.sealedMem ++ k.mem, mem := [] }
 
+/-- a flush writes the sealed memtables' entries into a new table.  An entry that recovery replayed
+    although the tables already reflect it (same key, seqno and value) lands on top of its old copy
+    and adds nothing to the history the tables reflect; it does count for the highest seqno. -/
 def KsL.flushSealed (k : KsL) : KsL :=
-  { k with tables := k.tables ++ k.sealedMem, sealedMem := [],
+  { k with tables := k.tables ++ k.sealedMem.filter (fun r => decide (r ∉ k.tables)), sealedMem := [],
            persisted := optMax k.persisted (maxSeqno k.sealedMem) }
 
 def KsL.lowerPersisted (k : KsL) (v : Option Nat) : KsL :=
@@ -114,17 +121,42 @@ def KsL.lowerPersisted (k : KsL) (v : Option Nat) : KsL :=
   | some _, none => { k with persisted := none }
   | none, _ => k
 
+/-- the effect of the last operation in `ops` that touches `k` (`none` = no operation touches it) -/
+def lastOn (k : Key) : List LOp → Option (Option Val)
+  | [] => none
+  | op :: r => match lastOn k r with
+    | some x => some x
+    | none => match op with
+      | .put k' v => if k' = k then some (some v) else none
+      | .del k' => if k' = k then some none else none
+      | .clear => none
+
+/-- no key's newest operation in `ops` is a put -/
+def noLive : List LOp → Bool
+  | [] => true
+  | op :: r => noLive r && (match op with
+    | .put k _ => (lastOn k r).isSome
+    | _ => true)
+
+/-- is the record's seqno above the highest seqno found in the tables? -/
+def above (p : Option Nat) (r : Rec) : Bool :=
+  match p with
+  | none => true
+  | some p => p < r.seqno
+
+/-- what the table files physically guarantee about `get_highest_persisted_seqno`: an entry that is
+    the newest for its key and is a value (not a tombstone) cannot have been dropped by any
+    compaction, so its seqno is counted.  (Tombstones and shadowed entries can be dropped.) -/
+def KsL.physOk (k : KsL) : Bool := noLive ((k.tables.filter (above k.persisted)).map (·.op))
+
 /-- `rotate_memtable`: the active memtable is sealed (no-op when empty) -/
 def DbL.rotate (db : DbL) (id : KsId) : DbL := db.updKs id sealMem
 
 /-- flush worker: all sealed memtables of a keyspace become durable in tables (registers a version) -/
 def DbL.flushSealed (db : DbL) (id : KsId) : DbL :=
-  match db.find id with
-  | none => db
-  | some k =>
-    if k.sealedMem.isEmpty then db
-    else
-      { (db.updKs id KsL.flushSealed) with seqno := db.seqno + 1 }
+  if db.kss.any (fun k => k.id = id && !k.sealedMem.isEmpty) then
+    { (db.updKs id KsL.flushSealed) with seqno := db.seqno + 1 }
+  else db
 
 /-- last-level compaction evicted tombstones: the highest seqno left in the tables went down to the
     observed value `v` (only ever lowers the model's value) -/
@@ -133,6 +165,16 @@ def DbL.lowerPersisted (db : DbL) (id : KsId) (v : Option Nat) : DbL :=
 
 /-- rotate + flush -/
 def DbL.flush (db : DbL) (id : KsId) : DbL := (db.rotate id).flushSealed id
+
+/-- bulk ingestion (`Ingestion::finish`): rotate + flush, then the ingested items become a table
+    run carrying one fresh seqno — without any journal record -/
+def DbL.ingest (db : DbL) (id : KsId) (items : List (Key × Option Val)) : DbL :=
+  if items.isEmpty then db else
+  let db1 := db.flush id
+  let g := db1.seqno
+  let recs := items.map fun (k, v) => (⟨g, id, match v with | some v => .put k v | none => .del k, true⟩ : Rec)
+  { (db1.updKs id fun k => { k with tables := k.tables ++ recs, persisted := optMax k.persisted (some g) })
+      with seqno := g + 1 }
 
 /-- `Supervisor::build_seqno_map` + `JournalManager::rotate_journal` -/
 def DbL.rotateJournal (db : DbL) : DbL :=
@@ -191,16 +233,22 @@ def sealAfterReplay (kss : List KsL) (wms : List (KsId × Nat)) : List KsL :=
       | some p => if lsn ≤ p then { k with sealedMem := [], mem := [] } else sealMem k
       | none => sealMem k
 
+/-- (repaired, findings F2 / F3 / F13) a journal record is replayed only if its seqno is above the
+    highest seqno the keyspace's tables held *before* replay started -/
+def needsReplay (pb : List (KsId × Nat)) (r : Rec) : Bool := above (pb.lookup r.ks) r
+
 /-- `Database::recover`: keyspaces from the meta rows and their tables; sealed journals oldest
-    first with the skip rule; then the active journal; seqno := highest seqno found in trees + 1 -/
+    first with the skip rule; then the active journal; seqno := highest seqno found + 1 -/
 def DbL.recover (db : DbL) : DbL :=
   let kss0 := db.kss.map fun k => { k with sealedMem := [], mem := [] }     -- memtables are gone
+  let pb : List (KsId × Nat) := kss0.filterMap fun k => k.persisted.map fun p => (k.id, p)
   let (kss1, sealed') := db.sealed.foldl (fun (acc : List KsL × List JournalL) j =>
       let (kss, out) := acc
-      let kss' := j.recs.foldl replayRec kss
-      let wms := replayWatermarks kss' j.recs
+      let recs := j.recs.filter (needsReplay pb)
+      let kss' := recs.foldl replayRec kss
+      let wms := replayWatermarks kss' recs
       (sealAfterReplay kss' wms, out ++ [{ j with watermarks := wms }])) (kss0, [])
-  let kss2 := db.active.recs.foldl replayRec kss1
+  let kss2 := (db.active.recs.filter (needsReplay pb)).foldl replayRec kss1
   -- seqnos found in the trees and (repaired, F11) in every journal record, resolved or not
   let all := (kss2.flatMap fun k => (k.tables ++ k.sealedMem ++ k.mem).map (·.seqno)) ++
     (db.sealed.flatMap fun j => j.recs.map (·.seqno)) ++ db.active.recs.map (·.seqno)
